@@ -39,7 +39,8 @@ def run(tier):
     chk.cov["exhaustive"] = True
     chk.cov["exhaustive_scope"] = "every 8-bit index and (per tier) every 16-bit index for lengths {1,2,3,5,8,16}(+{4,7,9,15}) x " \
                                   "6 element types x application/sandbox memory x plain/tainted index; 32/64-bit indices at " \
-                                  "-1, length, type limits and values aliasing a valid index after truncation; one 2-D shape"
+                                  "-1, length, type limits and values aliasing a valid index after truncation; one 2-D shape; lengths 300 " \
+                                  "and 40000 (longer than the range of 8-/16-bit index types) with every 8- and 16-bit index"
     chk.assumptions += ["flag-abort build; element offsets are measured with std::addressof on the returned reference"]
     return chk.finish(rule="one evaluation = one run of consecutive indices with one outcome, judged by TLC "
                            "(IndexRunAllowed); distinct_nontrivial = distinct (memory kind, element, index type, wrapper, "
